@@ -31,6 +31,12 @@ an `AugAssign` / `For` is the parameter `op`.  `_get_full_name` walks from the o
 (same records in the same order, same exception): `strip = true` is the first loop ("First strip off all slices"), and
 the name is the flat list of steps `fld a` / `sel i` instead of `[(a, [i, ...]), ...]` (the driver groups it back).
 The `nodelist` (used for line numbers in messages) is not modelled.
+
+The code modelled is the repaired visitor: `visit_Call` visits keyword arguments; `visit_Attribute` / `visit_Subscript` /
+`visit_Call` fall back to `generic_visit` when `_get_full_name` finds no name (a call result as base); `enter` removes
+every `Name` the statement stores to from the module-level names; a stripped slice whose bounds are not both constant is
+recorded as `"*"`; every index expression that is not a number or a name is visited; parameters and other names bound
+without a `Name` node are local.
 -/
 namespace PV.AstRW
 
@@ -126,16 +132,13 @@ def knownSlice (env : Env) (lo up : Node) : List Idx :=
   | some a, some b => [.slice a b]
   | _, _ => [.star]
 
-/-- which part of an index expression `_get_full_name` visits, and the marker it notes -/
-def idxStep (env : Env) (i : Node) (whole args : Unit → Except Err (List Ev)) : Except Err (List Ev × Idx) :=
+/-- the index expressions `_get_full_name` visits (`self.visit( v )`: every one that is not a number or a name; a `Slice`
+is rejected before), and the marker it notes -/
+def idxStep (env : Env) (i : Node) (whole : Unit → Except Err (List Ev)) : Except Err (List Ev × Idx) :=
   match i with
-  | .attr .. => do let e ← whole (); pure (e, .star)
-  | .sub .. => do let e ← whole (); pure (e, .star)
-  | .node k _ => if k = .binOp ∨ k = .unaryOp ∨ k = .ifExp then do let e ← whole (); pure (e, .star) else pure ([], .star)
-  | .call .. => do let e ← args (); pure (e, .star)
   | .num n => pure ([], .num n)
   | .name x _ => pure ([], nameIdx env x)
-  | _ => pure ([], .star)
+  | _ => do let e ← whole (); pure (e, .star)
 
 /-- the end of `_get_full_name`: `assert len(slices) == 1`, `obj_name[0][1].append( slices[0] )` -/
 def attachSlices (r : Option ObjName) (sl : List Idx) : Except Err (Option ObjName) :=
@@ -163,12 +166,8 @@ def chain (env : Env) (op : Op) (strip : Bool) : Node → Except Err (List Ev ×
       let (e, r, sl) ← chain env op true v
       pure (e, r, knownSlice env lo up ++ sl)
     else throw .sliceInMiddle
-  | .sub v (.call f args kws) _ => do
-    let (e1, idx) ← idxStep env (.call f args kws) (fun _ => pure []) (fun _ => visitList env op args)
-    let (e2, r, _) ← chain env op false v
-    pure (e1 ++ e2, r.map (· ++ [.sel idx]), [])
   | .sub v i _ => do
-    let (e1, idx) ← idxStep env i (fun _ => visit env op i) (fun _ => pure [])
+    let (e1, idx) ← idxStep env i (fun _ => visit env op i)
     let (e2, r, _) ← chain env op false v
     pure (e1 ++ e2, r.map (· ++ [.sel idx]), [])
   | .attr v a _ => do
@@ -206,20 +205,8 @@ def visit (env : Env) (op : Op) : Node → Except Err (List Ev)
       let p ← record c op nm
       let e' ← visit env op (.slice lo up st)          -- self.visit( node.slice )
       pure (e ++ p ++ e')
-  | .sub v (.call f args kws) c => do                  -- visit_Subscript, the index is a call
-    let (e1, idx) ← idxStep env (.call f args kws) (fun _ => pure []) (fun _ => visitList env op args)
-    let (e2, r, _) ← chain env op false v
-    match r with
-    | none => do
-      let g ← visit env op v
-      let g' ← visit env op (.call f args kws)
-      pure (e1 ++ e2 ++ g ++ g')
-    | some nm => do
-      let p ← record c op (nm ++ [.sel idx])
-      let e' ← visit env op (.call f args kws)
-      pure (e1 ++ e2 ++ p ++ e')
   | .sub v i c => do                                   -- visit_Subscript
-    let (e1, idx) ← idxStep env i (fun _ => visit env op i) (fun _ => pure [])
+    let (e1, idx) ← idxStep env i (fun _ => visit env op i)
     let (e2, r, _) ← chain env op false v
     match r with
     | none => do
@@ -277,7 +264,9 @@ def fullName (env : Env) (op : Op) (n : Node) : Except Err (List Ev × Option Ob
 /-! ### `enter`: names bound inside the statement shadow module-level names -/
 
 mutual
-/-- the `local` set of `enter`: every `Name` with `Store` context anywhere in the statement (`ast.walk`) -/
+/-- the `local` set of `enter`: every `Name` with `Store` context anywhere in the statement (`ast.walk`); the names bound
+without a `Name` node that `enter` adds (`ast.arg`, `ExceptHandler.name`, `ast.alias`) are rendered by the harness as a
+`Name` child in `Store` context of their node, which `visit` does nothing with -/
 def localsOf : Node → List String
   | .nil => []
   | .name x c => if c = .store then [x] else []
@@ -309,6 +298,10 @@ def extractBody (env : Env) : List Node → Except Err (List Ev)
     let a ← visit env' .none s
     let b ← extractBody env' ss
     pure (a ++ b)
+
+/-- `extract_reads_writes_calls` of a function with parameters: `visitor.globals` loses the parameter names first -/
+def extractFn (env : Env) (params : List String) (body : List Node) : Except Err (List Ev) :=
+  extractBody { env with globals := env.globals.filter (fun g => !params.contains g) } body
 
 def Ev.isKind (k : K) (e : Ev) : Bool := e.kind = k
 
@@ -502,36 +495,10 @@ def lookName (σ : Valuation) (root : Obj) (funcs : List String) (nm : ObjName) 
     else if a ∈ funcs then pure [.func a] else pure []
   | _ => pure []
 
-/-! ## The fragment the completeness theorem of `Props/C02a.lean` covers
+/-! ## The fragment the completeness theorem of `Props/C02a.lean` is stated for
 
-`supported sc n`: what the visitor is proved complete for (reads and writes; with `sc = true` also calls).  Outside it
-the real visitor loses accesses (counter-examples in `Props/C02a.lean`, replayed on the real code by the harness):
-* an index of a chain that starts at a name, that is followed by a field / another index / a call and is not an attribute, subscript, name, number,
-  `BinOp`, `UnaryOp`, `IfExp` or call (`s.x[ s.a == 1 ].y`): only those are visited by `_get_full_name`; of a call in that
-  position only the arguments are visited (the call itself is not recorded: and neither are its keyword arguments; excluded under `sc`);
-A slice of a slice is rejected by the visitor (`multiSlice`); `supported` excludes it as well. -/
-
-mutual
-/-- no attribute, subscript or call inside: evaluating the expression touches no object path -/
-def quiet : Node → Bool
-  | .nil => true
-  | .name .. => true
-  | .num _ => true
-  | .str => true
-  | .attr .. => false
-  | .sub .. => false
-  | .call .. => false
-  | .slice a b c => quiet a && quiet b && quiet c
-  | .assign .. => false
-  | .aug .. => false
-  | .for_ .. => false
-  | .node _ cs => quietList cs
-def quietList : List Node → Bool
-  | [] => true
-  | n :: ns => quiet n && quietList ns
-end
-
-def visitedKind (k : Kind) : Bool := k = .binOp ∨ k = .unaryOp ∨ k = .ifExp
+`supported n` only excludes what the visitor itself rejects: a slice that is not the last subscript of a chain that starts
+at a name (`sliceInMiddle`) and a slice of a slice (`multiSlice`). -/
 
 def isSliceSub : Node → Bool
   | .sub _ (.slice ..) _ => true
@@ -546,40 +513,34 @@ def rooted : Node → Bool
 
 mutual
 /-- a node `visit` is called on -/
-def supported (sc : Bool) : Node → Bool
+def supported : Node → Bool
   | .nil => true
   | .name .. => true
   | .num _ => true
   | .str => true
-  | .attr v _ _ => if rooted v then supChain sc v else supported sc v
+  | .attr v _ _ => if rooted v then supChain v else supported v
   | .sub v (.slice lo up st) _ =>
-    (if rooted v then !isSliceSub v && supChain sc v else supported sc v)
-      && supported sc lo && supported sc up && supported sc st
-  | .sub v i _ => (if rooted v then supChain sc v else supported sc v) && supported sc i
-  | .slice a b c => supported sc a && supported sc b && supported sc c
-  | .call f args kws => (if rooted f then supChain sc f else supported sc f) && supportedList sc args && supportedList sc kws
-  | .assign ts v => supportedList sc ts && supported sc v
-  | .aug t _ v => supported sc t && supported sc v
-  | .for_ t it body orelse => supported sc t && supported sc it && supportedList sc body && supportedList sc orelse
-  | .node _ cs => supportedList sc cs
+    (if rooted v then !isSliceSub v && supChain v else supported v)
+      && supported lo && supported up && supported st
+  | .sub v i _ => (if rooted v then supChain v else supported v) && supported i
+  | .slice a b c => supported a && supported b && supported c
+  | .call f args kws => (if rooted f then supChain f else supported f) && supportedList args && supportedList kws
+  | .assign ts v => supportedList ts && supported v
+  | .aug t _ v => supported t && supported v
+  | .for_ t it body orelse => supported t && supported it && supportedList body && supportedList orelse
+  | .node _ cs => supportedList cs
 /-- the inner part of an access chain that starts at a name (`_get_full_name` only) -/
-def supChain (sc : Bool) : Node → Bool
+def supChain : Node → Bool
   | .name .. => true
-  | .attr v _ _ => supChain sc v
+  | .attr v _ _ => supChain v
   | .sub _ (.slice ..) _ => false
-  | .sub v (.call f args kws) _ => !sc && quiet f && quietList kws && supportedList sc args && supChain sc v
-  | .sub v (.num _) _ => supChain sc v
-  | .sub v (.name ..) _ => supChain sc v
-  | .sub v (.attr a b c) _ => supported sc (.attr a b c) && supChain sc v
-  | .sub v (.sub a b c) _ => supported sc (.sub a b c) && supChain sc v
-  | .sub v (.node k cs) _ => (if visitedKind k then supportedList sc cs else quietList cs) && supChain sc v
-  | .sub v i _ => quiet i && supChain sc v
+  | .sub v i _ => supported i && supChain v
   | _ => false
-def supportedList (sc : Bool) : List Node → Bool
+def supportedList : List Node → Bool
   | [] => true
-  | n :: ns => supported sc n && supportedList sc ns
+  | n :: ns => supported n && supportedList ns
 end
 
-def supportedBody (sc : Bool) (body : List Node) : Bool := supportedList sc body
+def supportedBody (body : List Node) : Bool := supportedList body
 
 end PV.AstRW
